@@ -173,6 +173,7 @@ def ocaml_driver():
     """Build ocaml/driver from the extracted model (coq/Extract.v writes ocaml/model.ml)."""
     with locked("ocaml"):
         hs = sorted(f for f in os.listdir(OCAML) if f.startswith("h_") and f.endswith(".ml"))
+        hs = [f for f in hs if f != "h_code.ml"] + ["h_code.ml"]       # h_code uses h_runner's tree reader
         files = ["model.mli", "model.ml", "util.ml"] + hs + ["driver.ml"]
         srcs = [os.path.join(OCAML, f) for f in files]
         out = os.path.join(OCAML, "driver")
